@@ -23,6 +23,11 @@ extern "C" void __lsan_ignore_object(const void *p);
 extern "C" int __lsan_do_recoverable_leak_check(void);
 extern "C" void __sanitizer_set_death_callback(void (*)(void));
 
+// With USE_ASSERT_EXCEPTIONS a known nudging assertion (F9/F18/F40) unwinds out of nudgeOrthogonalRoutes() past the raw-pointer
+// list of shift segments built by buildOrthogonalNudgingSegments(), which therefore leaks.  A normal build would have
+// stopped at the assertion, so these leaks are an artefact of the throwing build; leaks allocated elsewhere are reported.
+extern "C" const char *__lsan_default_suppressions() { return "leak:buildOrthogonalNudgingSegments\n"; }
+
 namespace {
 struct Stat { uint64_t evals = 0, knownAsserts = 0; std::unordered_set<uint64_t> nontrivial; std::string sample[3]; std::set<std::string> known; std::string dir; uint64_t deletes = 0, multiTxn = 0, ctorUnwind = 0; bool inObstacleCtor = false; } S;
 uint64_t fnv(const std::string &s) { uint64_t h = 1469598103934665603ull; for (unsigned char c : s) { h ^= c; h *= 1099511628211ull; } return h; }
@@ -100,6 +105,19 @@ extern "C" int LLVMFuzzerTestOneInput(const uint8_t *data, size_t size) {
     bool improve = transactions && fdp.ConsumeBool();
     if (improve) router->setRoutingOption(improveHyperedgeRoutesMovingAddingAndDeletingJunctions, true);
     T("%s txn=%d imp=%d;", orth ? "orth" : "poly", (int)transactions, (int)improve);
+    // With transactions off the ShapeRef / JunctionRef constructor would process the transaction itself, and a (known)
+    // assertion thrown from there unwinds through the half-built obstacle: ~Obstacle() then asserts again (std::terminate)
+    // or its pins touch freed memory -- artefacts of the throwing-assert build.  So obstacles are constructed with
+    // transactions switched on for the duration of the constructor and the transaction is processed right afterwards by an
+    // explicit call, which does the same work from a place an exception can leave cleanly.
+    auto newObstacle = [&](auto make) {
+        if (transactions) return make();
+        router->setTransactionUse(true);
+        auto *o = make();
+        router->setTransactionUse(false);
+        router->processTransaction();
+        return o;
+    };
     struct Sh { ShapeRef *s; bool isNew; std::set<int> classes; std::set<int> pinKeys; };
     std::vector<Sh> shapes;
     std::vector<JunctionRef *> juncs; std::vector<bool> juncNew;
@@ -153,14 +171,14 @@ extern "C" int LLVMFuzzerTestOneInput(const uint8_t *data, size_t size) {
                 return ConnEnd(Point(x, y));
             };
             switch (op) {
-                case 0: case 1: { double x = coord(), y = coord(), w = fdp.ConsumeIntegralInRange<int>(1, 30), h = fdp.ConsumeIntegralInRange<int>(1, 30); Rectangle r(Point(x, y), Point(x + w, y + h)); S.inObstacleCtor = !transactions; ShapeRef *ns = new ShapeRef(router, r); S.inObstacleCtor = false; shapes.push_back({ns, transactions, {}, {}}); T("S[%g,%g,%g,%g];", x, y, x + w, y + h); break; }
+                case 0: case 1: { double x = coord(), y = coord(), w = fdp.ConsumeIntegralInRange<int>(1, 30), h = fdp.ConsumeIntegralInRange<int>(1, 30); Rectangle r(Point(x, y), Point(x + w, y + h)); ShapeRef *ns = newObstacle([&] { return new ShapeRef(router, r); }); shapes.push_back({ns, transactions, {}, {}}); T("S[%g,%g,%g,%g];", x, y, x + w, y + h); break; }
                 case 2: { auto ls = liveShape(false); if (ls.empty()) break; int s = pickOf(ls); int cls = fdp.ConsumeIntegralInRange<int>(1, 2);
                           static const double offs[5] = {ATTACH_POS_LEFT, 0.25, ATTACH_POS_CENTRE, 0.75, ATTACH_POS_RIGHT};
                           double xo = offs[fdp.ConsumeIntegralInRange<int>(0, 4)], yo = offs[fdp.ConsumeIntegralInRange<int>(0, 4)];
                           ConnDirFlags dirs = (ConnDirFlags)fdp.ConsumeIntegralInRange<int>(0, 15);
                           if (!shapes[s].pinKeys.insert(cls * 1000000 + (int)(xo * 100) * 1000 + (int)(yo * 100) * 10 + 0).second) break;      // identical pins are not created twice
                           auto *pin = new ShapeConnectionPin(shapes[s].s, cls, xo, yo, true, 0, dirs); pin->setExclusive(fdp.ConsumeBool()); shapes[s].classes.insert(cls); T("P%d(%d,%g,%g,%d);", s, cls, xo, yo, (int)dirs); break; }
-                case 3: { double x = coord(), y = coord(); S.inObstacleCtor = !transactions; JunctionRef *nj = new JunctionRef(router, Point(x, y)); S.inObstacleCtor = false; juncs.push_back(nj); juncNew.push_back(transactions); uf.push_back((int)uf.size()); T("J(%g,%g);", x, y); break; }
+                case 3: { double x = coord(), y = coord(); JunctionRef *nj = newObstacle([&] { return new JunctionRef(router, Point(x, y)); }); juncs.push_back(nj); juncNew.push_back(transactions); uf.push_back((int)uf.size()); T("J(%g,%g);", x, y); break; }
                 case 4: case 5: { T("C:"); madeJunc = -1; ConnEnd a = makeEnd(); int ja = madeJunc; madeJunc = -1; ConnEnd b = makeEnd(); int jb = madeJunc; connJ[0].push_back(ja); connJ[1].push_back(jb); ConnRef *c = new ConnRef(router, a, b); conns.push_back(c); /* its routing type is the router's; with transactions off and hyperedge improvement the connector may already have been deleted: see sync() */ T(";"); break; }
                 case 6: { auto lc = liveConn(); if (lc.empty()) break; int c = pickOf(lc); std::vector<Checkpoint> cps; int k = fdp.ConsumeIntegralInRange<int>(0, 2); for (int i = 0; i < k; i++) cps.push_back(Checkpoint(Point(coord(), coord()))); conns[c]->setRoutingCheckpoints(cps); T("K%d:%d;", c, k); break; }
                 case 7: { auto ls = liveShape(false); if (ls.empty()) break; int s = pickOf(ls); if (fdp.ConsumeBool()) { double dx = fdp.ConsumeIntegralInRange<int>(-20, 20), dy = fdp.ConsumeIntegralInRange<int>(-20, 20); router->moveShape(shapes[s].s, dx, dy); T("M%d+(%g,%g);", s, dx, dy); } else { double x = coord(), y = coord(), w = fdp.ConsumeIntegralInRange<int>(1, 30), h = fdp.ConsumeIntegralInRange<int>(1, 30); Rectangle r(Point(x, y), Point(x + w, y + h)); router->moveShape(shapes[s].s, r); T("M%d=[%g,%g,%g,%g];", s, x, y, x + w, y + h); } break; }
